@@ -9,4 +9,4 @@ bin="$here/bin/gosqlx-sa"
 if [ ! -x "$bin" ] || [ -n "$(find "$here/sa" -name '*.go' -newer "$bin" -print -quit)" ]; then
   (cd "$here/sa" && go build -o "$bin" ./cmd/gosqlx-sa) || { echo "ANALYSIS-FAILURE: analyser does not build"; echo "VIOLATION property=$prop replay=$here/sa"; exit 1; }
 fi
-exec "$bin" -prop "$prop" -tier "$tier" -repo "${VERIF_REPO:-/repo}" -verif "$here"
+exec "$bin" -prop "$prop" -tier "$tier" -repo "${VERIF_REPO:-/repo}" -verif "$here" ${VERIF_OUT:+-out "$VERIF_OUT"}
